@@ -279,7 +279,8 @@ func runCCT(c *Ctx) {
 		G, K := 2+rng.Intn(11), 4+rng.Intn(9)
 		cutMode := []string{"never", "client", "server"}[i%3]
 		cutAfter := rng.Intn(G*K + 1)
-		opts := []sftp.ClientOption{sftp.MaxPacket(1 << (9 + rng.Intn(6))), sftp.UseConcurrentReads(rng.Intn(2) == 0), sftp.UseConcurrentWrites(rng.Intn(2) == 0)}
+		maxPkt := 1 << (9 + rng.Intn(6))
+		opts := []sftp.ClientOption{sftp.MaxPacket(maxPkt), sftp.UseConcurrentReads(rng.Intn(2) == 0), sftp.UseConcurrentWrites(rng.Intn(2) == 0)}
 		p, err := newPair(pairOpt{workDir: dir, clientOpts: opts})
 		if err != nil {
 			c.Diag("cct setup: %v", err)
@@ -366,8 +367,15 @@ func runCCT(c *Ctx) {
 			cctWait(&wg, 3*time.Second)
 		}
 		tr := sftp.VerifCCTrace(p.Client)
-		cn := c.Case("cctrace", kvs("mode", "live"), kvs("cut", cutMode), kvi("goroutines", G), kvi("calls", K), kvi("cutafter", cutAfter), kvx("seed", uint64(seed)), "tr="+traceJoin(tr))
-		c.Obs(cn, "accepted=1")
+		cn := c.Case("cctrace", kvs("mode", "live"), kvs("cut", cutMode), kvi("goroutines", G), kvi("calls", K), kvi("cutafter", cutAfter), kvx("seed", uint64(seed)), kvb("settled", returned && maxPkt >= 4096), "tr="+traceJoin(tr))
+		if returned && maxPkt >= 4096 {
+			// every call has returned, none was cancelled, and every transfer of this run fits in one packet (so every request went
+			// through clientConn.sendPacket; the chunk workers of multi-packet transfers read their result channels themselves):
+			// every registered request's result was taken from its channel
+			c.Obs(cn, "accepted=1", "unfinished=0")
+		} else {
+			c.Obs(cn, "accepted=1")
+		}
 		switch {
 		case !returned:
 			liveHangs++
@@ -405,6 +413,9 @@ func runCCT(c *Ctx) {
 	}
 	for i := 0; i < nCancel; i++ {
 		cctCancelCase(c, i)
+	}
+	for i := 0; i < nCancel; i++ {
+		cctLateCase(c, i)
 	}
 	hangs := 0
 	for i := 0; i < nHeld; i++ {
@@ -685,4 +696,86 @@ func cctCancelCase(c *Ctx, i int) {
 	c.Stat("cct_cancel_cases")
 	c1.Close()
 	cl.Close()
+}
+
+// cctLateCtx is a context that is never cancelled and whose Done method is slow: it returns only once `until` is closed (or
+// after 2 s). clientConn.sendPacket evaluates ctx.Done() when it enters its select, that is after the request has been
+// written: the caller is held in the window "request sent, not yet waiting for the reply".
+type cctLateCtx struct {
+	context.Context
+	until <-chan struct{}
+}
+
+func (d cctLateCtx) Done() <-chan struct{} {
+	select {
+	case <-d.until:
+	case <-time.After(2 * time.Second):
+	}
+	return nil
+}
+
+// cctLateCase (kind late): the reply to the only outstanding request is received completely, then the stream ends, and only
+// after the receiver has finished its shutdown does the caller get to look at its channel. A reply delivered before the
+// failure is what its caller takes (C04_delivered_survive): the trace must show the result taken as a reply, not as a loss.
+func cctLateCase(c *Ctx, i int) {
+	c1, c2 := net.Pipe()
+	go func() { // the peer: VERSION, then a complete HANDLE reply to the first request, then the end of the stream
+		defer c2.Close()
+		fr, err := readFrame(c2)
+		if err != nil || fr.Typ != fxpInit {
+			return
+		}
+		c2.Write(frame((&rb{}).u8(fxpVersion).u32(3).b))
+		fr, err = readFrame(c2)
+		if err != nil {
+			return
+		}
+		c2.Write(frame(pkt(fxpHandle, fr.ID).str("late-handle").b))
+	}()
+	cl, err := sftp.NewClientPipe(c1, c1)
+	if err != nil {
+		c.Diag("cct late setup: %v", err)
+		c1.Close()
+		return
+	}
+	until := make(chan struct{})
+	go func() { cl.Wait(); close(until) }()
+	done := make(chan error, 1)
+	go func() {
+		_, err := cl.ReadDirContext(cctLateCtx{context.Background(), until}, "/d")
+		done <- err
+	}()
+	returned, callErr := true, error(nil)
+	select {
+	case callErr = <-done:
+	case <-time.After(10 * time.Second):
+		returned = false
+	}
+	cl.Close()
+	tr := sftp.VerifCCTrace(cl)
+	cn := c.Case("cctrace", kvs("mode", "late"), kvi("i", i), kvb("settled", returned), "tr="+traceJoin(tr))
+	c.NT(cn)
+	c.Stat("cct_late_cases")
+	if !returned {
+		c.Obs(cn, "accepted=1")
+		c.Oracle(cn, false, "call-hang: ReadDirContext did not return within 10 s")
+		return
+	}
+	c.Obs(cn, "accepted=1", "unfinished=0")
+	// the OPENDIR's reply arrived whole: its result must have been taken as a reply (T..o); the READDIR that follows finds the
+	// connection gone, so the call as a whole ends with an error
+	tookReply := false
+	for _, e := range tr {
+		if e[0] == 'T' && strings.HasSuffix(e, "o") {
+			tookReply = true
+		}
+	}
+	switch {
+	case !tookReply:
+		c.Oracle(cn, false, "delivered-reply-lost: the HANDLE reply to the OPENDIR was received completely before the stream ended, but its caller did not take it (trace: "+truncs(traceJoin(tr))+")")
+	case callErr == nil:
+		c.Oracle(cn, false, "nil-after-loss: ReadDirContext returned a nil error although the connection was lost before its READDIR")
+	default:
+		c.Oracle(cn, true, "")
+	}
 }
